@@ -84,6 +84,7 @@ func run(c *fw.Ctx) {
 	runHTTPDate(c)
 	runHref(c)
 	runCalDT(c)
+	runRetained(c)
 }
 
 func replay(c *fw.Ctx, w json.RawMessage) {
@@ -117,6 +118,11 @@ func replay(c *fw.Ctx, w json.RawMessage) {
 		var cs hrefCase
 		if json.Unmarshal(rw.Case, &cs) == nil {
 			execHref(c, cs)
+		}
+	case "retained":
+		var cs retCase
+		if json.Unmarshal(rw.Case, &cs) == nil {
+			execRet(c, cs)
 		}
 	case "caldav-datetime":
 		var probe struct {
@@ -152,6 +158,9 @@ func init() {
 			"instants of years 0001-9999 (boundaries, DST edges, uniform) x zones (UTC, fixed offsets within +-14h incl. odd seconds, named zones from the embedded tz database), " +
 			"hrefs = absolute paths with non-empty first segment over all 256 byte values. Rejection side: enumerated near-misses per grammar plus mutated/random texts; " +
 			"a text is in the must-reject set only when it is outside every reading of the grammar (see assumptions), everything else is don't-care on accept/reject but value-checked when accepted. " +
+			"Retained-output family (every encoder that hands out a []byte or string: Status/ETag/Time/Href MarshalText, ETag/Href/Depth String, FormatOverwrite, xml.Marshal of propstat/getetag/getlastmodified/response): " +
+			"encode A and keep the result plus a copy, encode 2-5 more values whose encodings are shorter/equal/longer, then every kept output must equal its copy and decode to its value; " +
+			"concurrent variant with 2-8 goroutines each decoding its own kept output after yielding, under GOMAXPROCS 1 and 4; decoder mirror: decode from one reused buffer that is scribbled over after each call, decoded values must not change. " +
 			"distinct_nontrivial counts distinct abstract case classes (primitive, path, feature set of the value / near-miss class, zone kind and year bucket, status class and phrase kind).",
 		Assumptions: []string{
 			"entity tag: must-reject = texts that (after trimming ASCII white space) are not of the form DQUOTE ... DQUOTE, or contain an interior DQUOTE not preceded by a backslash; white-space-wrapped quoted tags are don't-care; a quoted text without backslash must, if accepted, decode to exactly its interior bytes",
@@ -160,6 +169,7 @@ func init() {
 			"CalDAV UTC date-time: wire grammar YYYYMMDD'T'HHMMSS'Z' read by an independent strict parser (proleptic Gregorian, seconds 00-59); fractional seconds and white-space-wrapped texts are don't-care on the server side; an unset (zero time.Time) range bound must not be written as an attribute",
 			"href: domain = absolute paths whose first segment is non-empty; must-reject = invalid percent escapes, raw control bytes, missing scheme before ':', unterminated IP literal; everything else (raw spaces, non-ASCII) is don't-care",
 			"Depth / Overwrite: the grammars are exactly {0,1,infinity} and {T,F}, case- and space-sensitive (RFC 4918 sections 10.2, 10.6)",
+			"retained-output family: Parse* take Go strings (immutable), so they have no input-buffer mirror; the concurrent variant's schedule is not deterministic, but on code without shared encoder state every schedule passes",
 			"named zones come from Go's embedded time/tzdata, so the case list does not depend on the host's zoneinfo",
 		},
 		MinEvals: func(t string) int64 {
